@@ -5,7 +5,7 @@
 #include <map>
 #include <array>
 using namespace vf;
-void inst(gray8_view_t const& g, rgb8_view_t const& c){
+void inst(gray8_view_t const& g, rgb8_view_t const& c, gray8s_view_t const& gs, rgb8_planar_view_t const& pl){
   histogram<int> h1; histogram<int, int, int> h3;
   std::vector<std::vector<bool>> mask;
   h1.fill(g); h1.fill(g, 2, true, mask, std::make_tuple(1), std::make_tuple(9), true);
@@ -15,6 +15,7 @@ void inst(gray8_view_t const& g, rgb8_view_t const& c){
   auto c1 = cumulative_histogram(h1); auto c3 = cumulative_histogram(h3); (void)c1; (void)c3;
   auto s1 = h3.sub_histogram<0, 2>(); auto s2 = h3.sub_histogram<0>(std::make_tuple(1, 0, 0), std::make_tuple(5, 0, 0)); (void)s1; (void)s2;
   h1.normalize(); h3.normalize(); (void)h1.sum();
+  h1.fill(gs, 3); h3.fill(pl, 2); auto s3 = h3.sub_histogram<0, 1>(std::make_tuple(1, 1, 0), std::make_tuple(3, 3, 0)); (void)s3;
   std::vector<int> hv; std::array<int, 64> ha; std::map<int, int> hm;
   fill_histogram(g, hv); fill_histogram(g, hv, true); fill_histogram(g, ha); fill_histogram(g, hm, true);
   std::vector<long> hv2; std::array<long, 16> ha2; std::map<long, long> hm2;
